@@ -472,3 +472,943 @@ Proof.
     + apply all_digit_app; [assumption|apply all_digit_app; [assumption|apply all_digit_zeros]].
     + apply value_syntax_dec_frac; try assumption. apply num_follow_head; exact Hr.
 Qed.
+
+Lemma num_lex_head ty l v :
+  num_lex ty l v -> exists c l', l = c :: l' /\ is_digit c || (c =? 45) || (c =? 43) = true.
+Proof.
+  assert (Hgen : forall sg ds tl, is_sign sg -> ds <> [] -> all_digit ds ->
+            exists c l', sg ++ ds ++ tl = c :: l' /\ is_digit c || (c =? 45) || (c =? 43) = true).
+  { intros sg ds tl Hsg Hne Hds. destruct ds as [|d ds]; [congruence|].
+    unfold all_digit in Hds. cbn [forallb] in Hds. apply andb_true_iff in Hds. destruct Hds as [Hd _].
+    destruct Hsg as [-> | [-> | ->]]; cbn [app].
+    - exists d, (ds ++ tl). split; [reflexivity|]. rewrite Hd. reflexivity.
+    - exists 43, (d :: ds ++ tl). split; reflexivity.
+    - exists 45, (d :: ds ++ tl). split; reflexivity. }
+  intros [t sg ds Hsg Hne Hds | sg ds Hsg Hne Hds | fd sg ip Hsg Hne Hds | fd sg ip fp Hsg Hne Hds Hfne Hfp Hlen].
+  - destruct (Hgen sg ds [] Hsg Hne Hds) as [c [l' [H1 H2]]]. rewrite app_nil_r in H1. eauto.
+  - destruct (Hgen sg ds [] Hsg Hne Hds) as [c [l' [H1 H2]]]. rewrite app_nil_r in H1. eauto.
+  - destruct (Hgen sg ip [] Hsg Hne Hds) as [c [l' [H1 H2]]]. rewrite app_nil_r in H1. eauto.
+  - exact (Hgen sg ip (46 :: fp) Hsg Hne Hds).
+Qed.
+
+Lemma orun_num ty base rp pd re l v r :
+  num_lex ty l v -> num_follow r ->
+  orun ty base rp pd re (l ++ r) =
+  if re then
+    match rp with
+    | [] => None
+    | (lo, _) :: tl => if in_type ty v && (lo <=? v)%Z then orun ty base ((lo, v) :: tl) pd false r else None
+    end
+  else if in_type ty v && ((pd =? 0)%nat || (prev_max pd rp <? v)%Z) then orun ty base ((v, v) :: rp) pd false r
+       else None.
+Proof.
+  intros Hlex Hr. destruct (num_lex_head ty l v Hlex) as [c [l' [Hl Hc]]].
+  unfold orun. rewrite Hl. cbn [app]. rewrite run_cons. cbv zeta.
+  assert (Hsp : is_space c = false).
+  { destruct (is_digit c) eqn:Hd; [apply digit_not_space; exact Hd|]. unfold is_space. lia. }
+  assert (Hmin : starts_with s_min (c :: l' ++ r) = false).
+  { unfold s_min. cbn [starts_with]. unfold is_digit in Hc. destruct (109 =? c) eqn:H; [lia|reflexivity]. }
+  assert (Hbar : (c =? 124) = false) by (unfold is_digit in Hc; lia).
+  assert (Hdots : starts_with s_dots (c :: l' ++ r) = false).
+  { unfold s_dots. cbn [starts_with]. unfold is_digit in Hc. destruct (46 =? c) eqn:H; [lia|reflexivity]. }
+  rewrite Hsp, Hmin, Hbar, Hdots, Hc.
+  change (c :: l' ++ r) with ((c :: l') ++ r). rewrite <- Hl.
+  destruct re.
+  - destruct rp as [|[lo hi0] tl]; [reflexivity|].
+    pose proof (bound_num_lex ty l v r true false lo Hlex Hr) as Hb.
+    destruct (bound_num ty true false lo (l ++ r)) as [[w len]|e]; cbn [ropt] in Hb; unfold asc_ok in Hb; cbn [orb] in Hb.
+    + destruct (in_type ty v && (lo <=? v)%Z); [|discriminate]. inversion Hb; subst.
+      rewrite skipn_app_exact. reflexivity.
+    + destruct (in_type ty v && (lo <=? v)%Z); [discriminate|reflexivity].
+  - pose proof (bound_num_lex ty l v r false (pd =? 0)%nat (prev_max pd rp) Hlex Hr) as Hb.
+    destruct (bound_num ty false (pd =? 0)%nat (prev_max pd rp) (l ++ r)) as [[w len]|e]; cbn [ropt] in Hb;
+      unfold asc_ok in Hb.
+    + destruct (in_type ty v && ((pd =? 0)%nat || (prev_max pd rp <? v)%Z)); [|discriminate]. inversion Hb; subst.
+      rewrite skipn_app_exact. reflexivity.
+    + destruct (in_type ty v && ((pd =? 0)%nat || (prev_max pd rp <? v)%Z)); [discriminate|reflexivity].
+Qed.
+
+(* ---------------------------------------------------------------------------------------------
+   3. the loop on texts of the grammar = a recursive function on the abstract syntax
+   --------------------------------------------------------------------------------------------- *)
+Definition prev_hi (rp : parts) : Z := match rp with (_, h) :: _ => h | [] => 0%Z end.
+
+Lemma prev_max_len rp : prev_max (length rp) rp = prev_hi rp.
+Proof. destruct rp as [|[l h] rp]; reflexivity. Qed.
+
+Lemma len0_is_nil {A} (l : list A) : (length l =? 0)%nat = is_nil l.
+Proof. destruct l; reflexivity. Qed.
+
+(* lower bound of a new part; [last]: nothing but white space follows *)
+Definition sem_lo (ty : rty) (base rp : parts) (last : bool) (b : bnd) : option Z :=
+  match b with
+  | BMin => if is_nil rp then Some (kw_value ty base false) else None
+  | BNum v => if in_type ty v && (is_nil rp || (prev_hi rp <? v)%Z) then Some v else None
+  | BMax => if last && (is_nil rp || (prev_hi rp <=? kw_value ty base true)%Z) then Some (kw_value ty base true) else None
+  end.
+
+Definition sem_hi (ty : rty) (base : parts) (lo : Z) (last : bool) (b : bnd) : option Z :=
+  match b with
+  | BMin => None
+  | BNum v => if in_type ty v && (lo <=? v)%Z then Some v else None
+  | BMax => if last && (lo <=? kw_value ty base true)%Z then Some (kw_value ty base true) else None
+  end.
+
+Definition sem_part (ty : rty) (base rp : parts) (last : bool) (p : rpart) : option (Z * Z) :=
+  match p with
+  | (b1, None) => match sem_lo ty base rp last b1 with Some lo => Some (lo, lo) | None => None end
+  | (b1, Some b2) =>
+      match sem_lo ty base rp false b1 with
+      | None => None
+      | Some lo => match sem_hi ty base lo last b2 with Some hi => Some (lo, hi) | None => None end
+      end
+  end.
+
+Fixpoint sem_parts (ty : rty) (base rp : parts) (ps : list rpart) : option parts :=
+  match ps with
+  | [] => Some (rev rp)
+  | p :: ps' =>
+      match sem_part ty base rp (is_nil ps') p with
+      | None => None
+      | Some d => sem_parts ty base (d :: rp) ps'
+      end
+  end.
+
+(* what follows a boundary (after optional white space): the end, a bar, or two periods *)
+Definition sep_start (r : bytes) : Prop := r = [] \/ (exists r', r = 124 :: r') \/ (exists r', r = 46 :: 46 :: r').
+
+Lemma sep_follow ws r : all_space ws -> sep_start r -> num_follow (ws ++ r).
+Proof.
+  intros Hws Hr. destruct ws as [|w ws]; cbn [app].
+  - destruct Hr as [-> | [[r' ->] | [r' ->]]]; cbn [num_follow].
+    + exact I.
+    + split; [reflexivity|]. intro H; discriminate.
+    + split; [reflexivity|]. intros _. reflexivity.
+  - unfold all_space in Hws. cbn [forallb] in Hws. apply andb_true_iff in Hws. destruct Hws as [Hw _].
+    cbn [num_follow]. split; [apply space_not_digit; exact Hw|]. intros ->. discriminate.
+Qed.
+
+Lemma sep_skip ws r : all_space ws -> sep_start r -> skip_space (ws ++ r) = r.
+Proof.
+  intros Hws Hr. rewrite skip_space_app_ws by exact Hws.
+  destruct Hr as [-> | [[r' ->] | [r' ->]]]; reflexivity.
+Qed.
+
+Lemma bnd_text_head ty b tb : bnd_text ty b tb -> exists c t', tb = c :: t' /\ is_space c = false.
+Proof.
+  intros [ | | l v Hl].
+  - exists 109, [105; 110]. split; reflexivity.
+  - exists 109, [97; 120]. split; reflexivity.
+  - destruct (num_lex_head ty l v Hl) as [c [l' [-> Hc]]]. exists c, l'. split; [reflexivity|].
+    destruct (is_digit c) eqn:Hd; [apply digit_not_space; exact Hd|]. unfold is_space. lia.
+Qed.
+
+Lemma lo_sim ty base rp b tb ws R :
+  bnd_text ty b tb -> all_space ws -> sep_start R ->
+  orun ty base rp (length rp) false (tb ++ ws ++ R) =
+  match sem_lo ty base rp (is_nil R) b with
+  | None => None
+  | Some lo => orun ty base ((lo, lo) :: rp) (length rp) false R
+  end.
+Proof.
+  intros Hb Hws HR. destruct Hb as [ | | l v Hl]; cbn [sem_lo].
+  - rewrite orun_min. destruct rp; cbn [is_nil]; [|reflexivity]. apply orun_ws. exact Hws.
+  - rewrite orun_max, (sep_skip ws R Hws HR). cbv zeta. rewrite prev_max_len, len0_is_nil.
+    destruct R as [|c R']; cbn [is_nil andb]; [|reflexivity].
+    destruct (is_nil rp || (prev_hi rp <=? kw_value ty base true)%Z); reflexivity.
+  - rewrite (orun_num ty base rp (length rp) false l v (ws ++ R) Hl (sep_follow ws R Hws HR)).
+    rewrite prev_max_len, len0_is_nil.
+    destruct (in_type ty v && (is_nil rp || (prev_hi rp <? v)%Z)); [|reflexivity]. apply orun_ws. exact Hws.
+Qed.
+
+Lemma hi_sim ty base rp lo x pd b tb ws R :
+  bnd_text ty b tb -> all_space ws -> sep_start R ->
+  orun ty base ((lo, x) :: rp) pd true (tb ++ ws ++ R) =
+  match sem_hi ty base lo (is_nil R) b with
+  | None => None
+  | Some hi => orun ty base ((lo, hi) :: rp) pd false R
+  end.
+Proof.
+  intros Hb Hws HR. destruct Hb as [ | | l v Hl]; cbn [sem_hi].
+  - rewrite orun_min. reflexivity.
+  - rewrite orun_max, (sep_skip ws R Hws HR). cbv zeta.
+    destruct R as [|c R']; cbn [is_nil andb]; [|reflexivity].
+    destruct (lo <=? kw_value ty base true)%Z; reflexivity.
+  - rewrite (orun_num ty base ((lo, x) :: rp) pd true l v (ws ++ R) Hl (sep_follow ws R Hws HR)).
+    destruct (in_type ty v && (lo <=? v)%Z); [|reflexivity]. apply orun_ws. exact Hws.
+Qed.
+
+(* R: what follows the part, nothing or a bar *)
+Definition part_follow (R : bytes) : Prop := R = [] \/ exists R', R = 124 :: R'.
+
+Lemma part_follow_sep R : part_follow R -> sep_start R.
+Proof. intros [-> | [R' ->]]; [left; reflexivity|right; left; eauto]. Qed.
+
+Lemma part_sim ty base rp p tp R :
+  part_text ty p tp -> part_follow R ->
+  orun ty base rp (length rp) false (tp ++ R) =
+  match sem_part ty base rp (is_nil R) p with
+  | None => None
+  | Some d => orun ty base (d :: rp) (length rp) false R
+  end.
+Proof.
+  intros Hp HR. pose proof (part_follow_sep R HR) as HS.
+  destruct Hp as [b tb ws Hb Hws | b1 t1 ws1 ws2 b2 t2 ws3 Hb1 Hws1 Hws2 Hb2 Hws3]; cbn [sem_part].
+  - rewrite <- app_assoc, (lo_sim ty base rp b tb ws R Hb Hws HS).
+    destruct (sem_lo ty base rp (is_nil R) b); reflexivity.
+  - replace ((t1 ++ ws1 ++ s_dots ++ ws2 ++ t2 ++ ws3) ++ R)
+      with (t1 ++ ws1 ++ (s_dots ++ ws2 ++ t2 ++ ws3 ++ R)) by (rewrite <- !app_assoc; reflexivity).
+    rewrite (lo_sim ty base rp b1 t1 ws1 (s_dots ++ ws2 ++ t2 ++ ws3 ++ R) Hb1 Hws1).
+    2:{ right; right. unfold s_dots. cbn [app]. eauto. }
+    change (is_nil (s_dots ++ ws2 ++ t2 ++ ws3 ++ R)) with false.
+    destruct (sem_lo ty base rp false b1) as [lo|]; [|reflexivity].
+    rewrite orun_dots. cbn [is_nil orb length].
+    destruct (S (length rp) =? length rp)%nat eqn:Hn; [lia|].
+    destruct (bnd_text_head ty b2 t2 Hb2) as [c [t' [Ht2 Hc]]].
+    rewrite skip_space_app_ws by exact Hws2.
+    assert (Hsk : skip_space (t2 ++ ws3 ++ R) = t2 ++ ws3 ++ R).
+    { rewrite Ht2. cbn [app]. apply skip_space_id. exact Hc. }
+    rewrite Hsk.
+    rewrite (hi_sim ty base rp lo lo (length rp) b2 t2 ws3 R Hb2 Hws3 HS).
+    destruct (sem_hi ty base lo (is_nil R) b2); reflexivity.
+Qed.
+
+Lemma parts_text_nonempty ty ps tps : parts_text ty ps tps -> ps <> [].
+Proof. intros [p tp Hp | p tp ws ps' tps' Hp Hws Hps]; discriminate. Qed.
+
+Lemma parts_sim ty base ps tps :
+  parts_text ty ps tps -> forall rp,
+  orun ty base rp (length rp) false tps =
+  option_map (fun r => (r, length r)) (sem_parts ty base rp ps).
+Proof.
+  induction 1 as [p tp Hp | p tp ws ps' tps' Hp Hws Hps IH]; intro rp.
+  - rewrite <- (app_nil_r tp). rewrite (part_sim ty base rp p tp [] Hp (or_introl eq_refl)).
+    cbn [sem_parts is_nil]. destruct (sem_part ty base rp true p) as [d|]; [|reflexivity].
+    unfold orun. rewrite run_nil. cbn [is_nil orb length].
+    destruct (length rp =? S (length rp))%nat eqn:Hn; [lia|].
+    cbn [ropt option_map]. rewrite rev_length. reflexivity.
+  - rewrite (part_sim ty base rp p tp (124 :: ws ++ tps') Hp (or_intror (ex_intro _ _ eq_refl))).
+    cbn [sem_parts is_nil].
+    pose proof (parts_text_nonempty ty ps' tps' Hps) as Hne.
+    destruct ps' as [|p2 ps'']; [congruence|]. cbn [is_nil].
+    destruct (sem_part ty base rp false p) as [d|]; [|reflexivity].
+    rewrite orun_bar. cbn [is_nil orb].
+    rewrite (orun_ws ty base (d :: rp) (S (length rp)) false ws tps' Hws).
+    exact (IH (d :: rp)).
+Qed.
+
+(* the whole function on a text of the grammar *)
+Lemma compile_range_sem ty base ps text :
+  range_text ty ps text ->
+  ropt (compile_range ty base text) =
+  match sem_parts ty base [] ps with
+  | None => None
+  | Some r => match base with
+              | [] => Some r
+              | _ :: _ => if check_base r base then Some r else None
+              end
+  end.
+Proof.
+  intros [ws ps' tps Hws Hps]. unfold compile_range. fold (run ty base [] 0 false (ws ++ tps)).
+  pose proof (orun_ws ty base [] 0 false ws tps Hws) as H1.
+  pose proof (parts_sim ty base ps' tps Hps []) as H2. cbn [length] in H2.
+  unfold orun in H1, H2. rewrite H2 in H1. clear H2.
+  destruct (sem_parts ty base [] ps') as [r|]; cbn [option_map] in H1.
+  - destruct (run ty base [] 0 false (ws ++ tps)) as [[r0 pd]|e]; cbn [ropt] in H1; [|discriminate].
+    inversion H1; subst. destruct base as [|b0 base']; [reflexivity|].
+    rewrite firstn_all. unfold check_base.
+    destruct (check_base_rem r (b0 :: base')); [|reflexivity].
+    rewrite Nat.leb_refl. reflexivity.
+  - destruct (run ty base [] 0 false (ws ++ tps)) as [[r0 pd]|e]; cbn [ropt] in H1; [discriminate|reflexivity].
+Qed.
+
+(* ---------------------------------------------------------------------------------------------
+   4. the function on the abstract syntax, declaratively
+   --------------------------------------------------------------------------------------------- *)
+Definition prev_of (rp : parts) : option Z := match rp with [] => None | (_, h) :: _ => Some h end.
+
+Fixpoint asc_from (prev : option Z) (l : parts) : Prop :=
+  match l with
+  | [] => True
+  | (lo, hi) :: l' =>
+      match prev with None => True | Some p => (p < lo)%Z end /\ (lo <= hi)%Z /\ asc_from (Some hi) l'
+  end.
+
+Lemma asc_from_sorted prev l :
+  asc_from prev l <->
+  match prev, l with Some p, (lo, _) :: _ => (p < lo)%Z | _, _ => True end /\ parts_sorted l.
+Proof.
+  revert prev. induction l as [|[lo hi] l IH]; intro prev; cbn [asc_from parts_sorted].
+  - destruct prev; tauto.
+  - rewrite (IH (Some hi)). destruct l as [|[lo2 hi2] l']; destruct prev; tauto.
+Qed.
+
+Definition kw_step (first last : bool) (p : rpart) : bool :=
+  let '(b1, ob2) := p in
+  (match b1 with
+   | BMin => first
+   | BMax => last && match ob2 with None => true | Some _ => false end
+   | BNum _ => true
+   end) &&
+  (match ob2 with
+   | None => true
+   | Some BMin => false
+   | Some BMax => last
+   | Some (BNum _) => true
+   end).
+
+Lemma kw_ok_from_cons first p ps :
+  kw_ok_from first (p :: ps) = kw_step first (is_nil ps) p && kw_ok_from false ps.
+Proof. destruct p as [b1 ob2]. reflexivity. Qed.
+
+Lemma sem_part_spec ty base rp last p d :
+  ~ (last = true /\ p = (BMax, None) /\ prev_of rp = Some (kw_value ty base true)) ->
+  (sem_part ty base rp last p = Some d <->
+   d = part_val ty base p /\ kw_step (is_nil rp) last p = true /\ part_in_type ty p /\
+   match prev_of rp with None => True | Some h => (h < fst d)%Z end /\ (fst d <= snd d)%Z).
+Proof.
+  intro Hnt.
+  assert (Hne : forall l h rp', rp = (l, h) :: rp' -> last = true -> p = (BMax, None) -> h <> kw_value ty base true).
+  { intros l h rp' -> -> -> Heq. apply Hnt. cbn [prev_of]. rewrite Heq. auto. }
+  destruct p as [b1 [b2|]]; destruct b1 as [| |v1]; try destruct b2 as [| |v2];
+    destruct rp as [|[l h] rp']; destruct last;
+    try specialize (Hne l h rp' eq_refl eq_refl eq_refl);
+    cbn [sem_part sem_lo sem_hi is_nil prev_hi prev_of kw_step part_val bnd_val part_in_type bnd_in_type fst snd andb orb];
+    unfold in_type;
+    repeat match goal with |- context [if ?c then _ else _] => destruct c eqn:? end;
+    (split; [intro H; try discriminate; inversion H; subst; cbn [fst snd]; repeat split; try reflexivity; try lia
+            | intros (H1 & H2 & H3 & H4 & H5); subst; unfold part_in_type, bnd_in_type in *; cbn [fst snd] in *;
+              try discriminate; try reflexivity; try (exfalso; lia); try (exfalso; destruct H3; lia)]).
+Qed.
+
+Lemma touching_from_cons ty base prev p p2 ps :
+  touching_from ty base prev (p :: p2 :: ps) = touching_from ty base (Some (snd (part_val ty base p))) (p2 :: ps).
+Proof. destruct p as [[| |v] [b|]]; reflexivity. Qed.
+
+Lemma sem_parts_spec ty base ps : forall rp r,
+  ~ touching_from ty base (prev_of rp) ps ->
+  (sem_parts ty base rp ps = Some r <->
+   r = rev rp ++ resolve ty base ps /\ kw_ok_from (is_nil rp) ps = true /\ Forall (part_in_type ty) ps /\
+   asc_from (prev_of rp) (resolve ty base ps)).
+Proof.
+  induction ps as [|p ps IH]; intros rp r Hnt.
+  - cbn [sem_parts resolve map kw_ok_from asc_from]. rewrite app_nil_r. split.
+    + intro H. inversion H. repeat split; auto.
+    + intros [-> _]. reflexivity.
+  - cbn [sem_parts]. rewrite kw_ok_from_cons. cbn [resolve map]. fold (resolve ty base ps).
+    assert (Hstep : ~ (is_nil ps = true /\ p = (BMax, None) /\ prev_of rp = Some (kw_value ty base true))).
+    { intros (Hl & Hp & Hprev). apply Hnt. destruct ps; [|discriminate]. subst p. cbn [touching_from]. exact Hprev. }
+    assert (Hnext : ~ touching_from ty base (prev_of (part_val ty base p :: rp)) ps).
+    { destruct ps as [|p2 ps']; [cbn [touching_from]; tauto|]. rewrite touching_from_cons in Hnt.
+      destruct (part_val ty base p) as [lo hi]. exact Hnt. }
+    destruct (sem_part ty base rp (is_nil ps) p) as [d|] eqn:Hsp.
+    + pose proof (proj1 (sem_part_spec ty base rp (is_nil ps) p d Hstep) Hsp) as (Hd & Hk & Hin & Hprev & Hle).
+      subst d. rewrite (IH (part_val ty base p :: rp) r Hnext). cbn [rev is_nil].
+      destruct (part_val ty base p) as [lo hi] eqn:Hpv. cbn [asc_from prev_of fst snd] in *.
+      rewrite Hk. cbn [andb]. rewrite <- app_assoc. cbn [app]. split.
+      * intros (Hr & Hk2 & Hf & Ha). repeat split; auto.
+      * intros (Hr & Hk2 & Hf & Ha). inversion Hf; subst. repeat split; tauto.
+    + split; [discriminate|]. intros (Hr & Hk & Hf & Ha). exfalso.
+      apply andb_true_iff in Hk. destruct Hk as [Hk1 Hk2]. inversion Hf as [|? ? Hin Hf']; subst.
+      destruct (part_val ty base p) as [lo hi] eqn:Hpv. cbn [asc_from] in Ha. destruct Ha as (Ha1 & Ha2 & Ha3).
+      assert (Hsome : sem_part ty base rp (is_nil ps) p = Some (lo, hi)).
+      { apply (sem_part_spec ty base rp (is_nil ps) p (lo, hi) Hstep). rewrite Hpv. cbn [fst snd]. repeat split; auto; apply Hin. }
+      congruence.
+Qed.
+
+Lemma sem_parts_top ty base ps r :
+  ps <> [] -> ~ touching_max ty base ps ->
+  (sem_parts ty base [] ps = Some r <->
+   r = resolve ty base ps /\ kw_ok ps = true /\ Forall (part_in_type ty) ps /\ parts_sorted (resolve ty base ps)).
+Proof.
+  intros Hne Hnt. rewrite (sem_parts_spec ty base ps [] r Hnt). cbn [rev app is_nil prev_of].
+  rewrite asc_from_sorted. unfold kw_ok. destruct ps; [congruence|]. cbn [is_nil negb andb]. tauto.
+Qed.
+
+(* ---------------------------------------------------------------------------------------------
+   5. the check against the base restriction = every derived part lies inside one base part
+   --------------------------------------------------------------------------------------------- *)
+Lemma parts_sorted_tail p ps : parts_sorted (p :: ps) -> parts_sorted ps.
+Proof. destruct p as [lo hi]. cbn [parts_sorted]. tauto. Qed.
+
+Lemma parts_sorted_suffix dr b : parts_sorted (dr ++ b) -> parts_sorted b.
+Proof. induction dr as [|x dr IH]; cbn [app]; [tauto|]. intro H. apply IH. exact (parts_sorted_tail _ _ H). Qed.
+
+Lemma parts_sorted_le ps l h : parts_sorted ps -> In (l, h) ps -> (l <= h)%Z.
+Proof.
+  induction ps as [|[lo hi] ps IH]; intros Hs Hin; [destruct Hin|].
+  destruct Hin as [Heq|Hin]; [inversion Heq; subst; cbn [parts_sorted] in Hs; tauto|].
+  apply IH; [exact (parts_sorted_tail _ _ Hs)|exact Hin].
+Qed.
+
+Lemma part_inside_cons_skip bl bh b d :
+  ~ ((bl <= fst d)%Z /\ (snd d <= bh)%Z) -> (part_inside ((bl, bh) :: b) d <-> part_inside b d).
+Proof.
+  intro Hn. unfold part_inside. split.
+  - intros (l & h & [Heq|Hin] & H1 & H2); [inversion Heq; subst; tauto|]. exists l, h. auto.
+  - intros (l & h & Hin & H1 & H2). exists l, h. split; [right; exact Hin|auto].
+Qed.
+
+Lemma check_part_some d b : forall b',
+  (fst d <= snd d)%Z -> check_part d b = Some b' ->
+  part_inside b d /\ exists dr, b = dr ++ b' /\ Forall (fun x => (snd x <= snd d)%Z) dr.
+Proof.
+  destruct d as [dl dh]. cbn [fst snd].
+  induction b as [|[bl bh] b IH]; intros b' Hd H; cbn [check_part] in H; [discriminate|].
+  destruct (dl <? bl)%Z eqn:H1; [discriminate|].
+  assert (Hrec : ~ ((bl <= dl)%Z /\ (dh <= bh)%Z) -> (bh <= dh)%Z -> check_part (dl, dh) b = Some b' ->
+          part_inside ((bl, bh) :: b) (dl, dh) /\
+          exists dr, (bl, bh) :: b = dr ++ b' /\ Forall (fun x => (snd x <= dh)%Z) dr).
+  { intros Hn Hle Hc. destruct (IH b' Hd Hc) as [Hin [dr [Hb Hf]]]. split.
+    - apply (part_inside_cons_skip bl bh b (dl, dh)); [exact Hn|exact Hin].
+    - exists ((bl, bh) :: dr). split; [rewrite Hb; reflexivity|]. constructor; [exact Hle|exact Hf]. }
+  assert (Here : (bl <= dl)%Z -> (dh <= bh)%Z -> part_inside ((bl, bh) :: b) (dl, dh)).
+  { intros Ha Hb. exists bl, bh. split; [left; reflexivity|]. cbn [fst snd]. auto. }
+  destruct (bl =? bh)%Z eqn:H2.
+  - destruct (bl =? dl)%Z eqn:H3.
+    + destruct (negb (dl =? dh)%Z) eqn:H4; [discriminate|]. inversion H; subst b'. split; [apply Here; lia|].
+      exists [(bl, bh)]. split; [reflexivity|]. constructor; [cbn [snd]; lia|constructor].
+    + apply Hrec; [cbn; lia|lia|exact H].
+  - destruct (dl =? dh)%Z eqn:H3.
+    + destruct (bh <? dh)%Z eqn:H4.
+      * apply Hrec; [cbn; lia|lia|exact H].
+      * inversion H; subst b'. split; [apply Here; lia|]. exists []. split; [reflexivity|constructor].
+    + destruct (bh <? dh)%Z eqn:H4.
+      * destruct (bh <? dl)%Z eqn:H5; [|discriminate]. apply Hrec; [cbn; lia|lia|exact H].
+      * inversion H; subst b'. split; [apply Here; lia|]. exists []. split; [reflexivity|constructor].
+Qed.
+
+Lemma check_part_none d b :
+  (fst d <= snd d)%Z -> parts_sorted b -> check_part d b = None -> ~ part_inside b d.
+Proof.
+  destruct d as [dl dh]. cbn [fst snd].
+  induction b as [|[bl bh] b IH]; intros Hd Hs H; cbn [check_part] in H.
+  - intros (l & h & [] & _).
+  - assert (Hlater : forall l h, In (l, h) b -> (bh < l)%Z).
+    { intros l h Hin. exact (parts_sorted_later bl bh b l h Hs Hin). }
+    assert (Hble : (bl <= bh)%Z) by (cbn [parts_sorted] in Hs; tauto).
+    assert (Hnot : ~ ((bl <= dl)%Z /\ (dh <= bh)%Z) -> (dl <= bh)%Z -> ~ part_inside ((bl, bh) :: b) (dl, dh)).
+    { intros Hn Hle (l & h & [Heq|Hin] & Ha & Hb); cbn [fst snd] in *.
+      - inversion Heq; subst. tauto.
+      - specialize (Hlater l h Hin). lia. }
+    pose proof (parts_sorted_tail _ _ Hs) as Hs'.
+    destruct (dl <? bl)%Z eqn:H1; [apply Hnot; lia|].
+    destruct (bl =? bh)%Z eqn:H2.
+    + destruct (bl =? dl)%Z eqn:H3.
+      * destruct (negb (dl =? dh)%Z) eqn:H4; [|discriminate]. apply Hnot; lia.
+      * intro Hin. apply (part_inside_cons_skip bl bh b (dl, dh)) in Hin; [|cbn; lia]. exact (IH Hd Hs' H Hin).
+    + destruct (dl =? dh)%Z eqn:H3.
+      * destruct (bh <? dh)%Z eqn:H4; [|discriminate].
+        intro Hin. apply (part_inside_cons_skip bl bh b (dl, dh)) in Hin; [|cbn; lia]. exact (IH Hd Hs' H Hin).
+      * destruct (bh <? dh)%Z eqn:H4; [|discriminate].
+        destruct (bh <? dl)%Z eqn:H5.
+        -- intro Hin. apply (part_inside_cons_skip bl bh b (dl, dh)) in Hin; [|cbn; lia]. exact (IH Hd Hs' H Hin).
+        -- apply Hnot; lia.
+Qed.
+
+Lemma check_base_spec ds : forall b,
+  parts_sorted ds -> parts_sorted b -> (check_base ds b = true <-> parts_inside ds b).
+Proof.
+  unfold check_base, parts_inside.
+  induction ds as [|[dl dh] ds IH]; intros b Hds Hb; cbn [check_base_rem].
+  - split; [constructor|reflexivity].
+  - assert (Hd : (fst (dl, dh) <= snd (dl, dh))%Z) by (cbn [parts_sorted fst snd] in *; tauto).
+    pose proof (parts_sorted_tail _ _ Hds) as Hds'.
+    destruct (check_part (dl, dh) b) as [b1|] eqn:Hc.
+    + destruct (check_part_some (dl, dh) b b1 Hd Hc) as [Hin [dr [Hbeq Hdr]]].
+      assert (Hb1 : parts_sorted b1) by (rewrite Hbeq in Hb; exact (parts_sorted_suffix _ _ Hb)).
+      rewrite (IH b1 Hds' Hb1). split.
+      * intro Hf. constructor; [exact Hin|].
+        eapply Forall_impl; [|exact Hf]. intros d (l & h & Hl & H1 & H2). exists l, h.
+        split; [rewrite Hbeq; apply in_or_app; right; exact Hl|auto].
+      * intro Hf. pose proof (Forall_inv_tail Hf) as Hf'.
+        rewrite Forall_forall in Hf' |- *. intros [l2 h2] Hd2.
+        destruct (Hf' _ Hd2) as (l & h & Hl & H1 & H2). cbn [fst snd] in *.
+        exists l, h. split; [|cbn [fst snd]; auto].
+        rewrite Hbeq in Hl. apply in_app_or in Hl. destruct Hl as [Hl|Hl]; [|exact Hl]. exfalso.
+        rewrite Forall_forall in Hdr. specialize (Hdr _ Hl). cbn [snd] in Hdr.
+        pose proof (parts_sorted_later dl dh ds l2 h2 Hds Hd2) as Hlt.
+        pose proof (parts_sorted_le ds l2 h2 Hds' Hd2) as Hle2. lia.
+    + split; [discriminate|]. intro Hf. pose proof (Forall_inv Hf) as Hin. exfalso.
+      exact (check_part_none (dl, dh) b Hd Hb Hc Hin).
+Qed.
+
+(* inside one part implies subset of the value set; the converse needs gaps between the base parts *)
+Lemma parts_inside_subset ds b : parts_inside ds b -> subset ds b.
+Proof.
+  unfold parts_inside, subset, in_parts. rewrite Forall_forall. intros Hf v (lo & hi & Hin & Hv).
+  destruct (Hf _ Hin) as (l & h & Hl & H1 & H2). cbn [fst snd] in *. exists l, h. split; [exact Hl|lia].
+Qed.
+
+Lemma parts_gapped_later lo hi ps l h : parts_gapped ((lo, hi) :: ps) -> In (l, h) ps -> (hi + 1 < l)%Z.
+Proof.
+  revert lo hi. induction ps as [|[lo2 hi2] ps IH]; intros lo hi Hs Hin; [destruct Hin|].
+  cbn [parts_gapped] in Hs. destruct Hs as [Hle [Hlt Hs2]].
+  destruct Hin as [Heq|Hin]; [inversion Heq; subst; exact Hlt|].
+  assert (H2 : (hi2 + 1 < l)%Z) by (apply (IH lo2 hi2); assumption).
+  cbn [parts_gapped] in Hs2. lia.
+Qed.
+
+Lemma gapped_interval b : parts_gapped b -> forall dl dh,
+  (dl <= dh)%Z -> (forall v, (dl <= v <= dh)%Z -> in_parts b v) -> part_inside b (dl, dh).
+Proof.
+  induction b as [|[bl bh] b IH]; intros Hg dl dh Hd Hall.
+  - destruct (Hall dl ltac:(lia)) as (l & h & [] & _).
+  - assert (Hlater : forall l h, In (l, h) b -> (bh + 1 < l)%Z) by (intros l h; apply (parts_gapped_later bl bh b l h Hg)).
+    assert (Hg' : parts_gapped b) by (cbn [parts_gapped] in Hg; tauto).
+    destruct (Z_le_gt_dec dl bh) as [Hle|Hgt].
+    + (* dl is not above this part: it must be in it, and so must everything up to dh *)
+      assert (Hdl : (bl <= dl)%Z).
+      { destruct (Hall dl ltac:(lia)) as (l & h & [Heq|Hin] & Hv); [inversion Heq; subst; lia|].
+        specialize (Hlater l h Hin). lia. }
+      assert (Hdh : (dh <= bh)%Z).
+      { destruct (Z_le_gt_dec dh bh) as [|Hbig]; [assumption|]. exfalso.
+        destruct (Hall (bh + 1)%Z ltac:(lia)) as (l & h & [Heq|Hin] & Hv); [inversion Heq; subst; lia|].
+        specialize (Hlater l h Hin). lia. }
+      exists bl, bh. split; [left; reflexivity|cbn [fst snd]; auto].
+    + (* the whole interval is above this part *)
+      assert (Hin : part_inside b (dl, dh)).
+      { apply IH; [exact Hg'|exact Hd|]. intros v Hv.
+        destruct (Hall v Hv) as (l & h & [Heq|Hin] & Hv2); [inversion Heq; subst; lia|]. exists l, h. auto. }
+      destruct Hin as (l & h & Hl & H1 & H2). exists l, h. split; [right; exact Hl|auto].
+Qed.
+
+Lemma subset_parts_inside ds b :
+  parts_gapped b -> Forall (fun d => (fst d <= snd d)%Z) ds -> subset ds b -> parts_inside ds b.
+Proof.
+  intros Hg Hle Hsub. unfold parts_inside. rewrite Forall_forall in Hle |- *. intros [dl dh] Hin.
+  apply gapped_interval; [exact Hg|exact (Hle _ Hin)|].
+  intros v Hv. apply Hsub. exists dl, dh. auto.
+Qed.
+
+(* ---------------------------------------------------------------------------------------------
+   6. the theorems
+   --------------------------------------------------------------------------------------------- *)
+Lemma range_text_nonempty ty ps text : range_text ty ps text -> ps <> [].
+Proof. intros [ws ps' tps _ Hps]. exact (parts_text_nonempty _ _ _ Hps). Qed.
+
+Lemma ropt_ok {A} (r : res A) a : ropt r = Some a <-> r = Ok a.
+Proof. destruct r; cbn [ropt]; split; intro H; inversion H; reflexivity. Qed.
+
+(* On every text of the grammar (RFC 7950 range-arg with white space around every token, + sign and leading zeros
+   allowed in numbers) the compiler accepts exactly the legal restrictions and returns the resolved parts. *)
+Theorem range_compile_iff ty base ps text r' :
+  range_text ty ps text -> parts_sorted base -> ~ touching_max ty base ps ->
+  (compile_range ty base text = Ok r' <-> r' = resolve ty base ps /\ legal ty base ps).
+Proof.
+  intros Htext Hbase Hnt. pose proof (range_text_nonempty _ _ _ Htext) as Hne.
+  rewrite <- ropt_ok, (compile_range_sem ty base ps text Htext). unfold legal.
+  pose proof (sem_parts_top ty base ps) as Htop.
+  destruct (sem_parts ty base [] ps) as [r|] eqn:Hsem.
+  - destruct (proj1 (Htop r Hne Hnt) eq_refl) as (Hr & Hk & Hin & Hs).
+    destruct base as [|b0 base'].
+    + split.
+      * intro H. inversion H; subst r'. repeat split; auto. congruence.
+      * intros [-> _]. rewrite Hr. reflexivity.
+    + pose proof (check_base_spec r (b0 :: base') ltac:(rewrite Hr; exact Hs) Hbase) as Hcb.
+      destruct (check_base r (b0 :: base')) eqn:Hc.
+      * split.
+        -- intro H. inversion H; subst r'. repeat split; auto. intros _. rewrite <- Hr. apply Hcb. reflexivity.
+        -- intros [-> _]. rewrite Hr. reflexivity.
+      * split; [discriminate|]. intros [-> (_ & _ & _ & Hi)]. exfalso.
+        assert (Ht : false = true) by (apply Hcb; rewrite Hr; apply Hi; discriminate).
+        discriminate.
+  - split; [discriminate|]. intros [-> (Hk & Hin & Hs & _)]. exfalso.
+    assert (Hsome : None = Some (resolve ty base ps)) by (apply (Htop _ Hne Hnt); auto).
+    discriminate.
+Qed.
+
+(* the same with the RFC wording (the value set of the derived restriction is a subset of the value set of the
+   base) when the parts of the base restriction do not touch *)
+Theorem range_compile_iff_subset ty base ps text r' :
+  range_text ty ps text -> parts_sorted base -> parts_gapped base -> base <> [] -> ~ touching_max ty base ps ->
+  (compile_range ty base text = Ok r' <->
+   r' = resolve ty base ps /\ kw_ok ps = true /\ Forall (part_in_type ty) ps /\ parts_sorted r' /\ subset r' base).
+Proof.
+  intros Htext Hbase Hgap Hne Hnt. rewrite (range_compile_iff ty base ps text r' Htext Hbase Hnt). unfold legal. split.
+  - intros (-> & Hk & Hin & Hs & Hi). repeat split; auto. apply parts_inside_subset. apply Hi. exact Hne.
+  - intros (-> & Hk & Hin & Hs & Hsub). repeat split; auto. intros _.
+    apply subset_parts_inside; [exact Hgap| |exact Hsub].
+    rewrite Forall_forall. intros [l h] Hd. exact (parts_sorted_le _ l h Hs Hd).
+Qed.
+
+(* a part that is not inside a part of the base restriction is rejected *)
+Theorem range_rejects_widening ty base ps text :
+  range_text ty ps text -> parts_sorted base -> base <> [] -> ~ touching_max ty base ps ->
+  ~ parts_inside (resolve ty base ps) base -> exists e, compile_range ty base text = Err e.
+Proof.
+  intros Htext Hbase Hne Hnt Hni. destruct (compile_range ty base text) as [r'|e] eqn:Hc; [|eauto].
+  exfalso. apply (range_compile_iff ty base ps text r' Htext Hbase Hnt) in Hc.
+  destruct Hc as (_ & _ & _ & _ & Hi). exact (Hni (Hi Hne)).
+Qed.
+
+(* what is accepted is an ascending list of disjoint non-empty intervals, and lyplg_type_validate_range decides
+   membership in its value set *)
+Theorem range_compiled_sorted ty base ps text r' :
+  range_text ty ps text -> parts_sorted base -> ~ touching_max ty base ps ->
+  compile_range ty base text = Ok r' -> parts_sorted r' /\ r' <> [].
+Proof.
+  intros Htext Hbase Hnt Hc. apply (range_compile_iff ty base ps text r' Htext Hbase Hnt) in Hc.
+  destruct Hc as (-> & _ & _ & Hs & _). split; [exact Hs|].
+  pose proof (range_text_nonempty _ _ _ Htext). destruct ps; [congruence|discriminate].
+Qed.
+
+Theorem range_validate_agrees ty base ps text r' v :
+  range_text ty ps text -> parts_sorted base -> ~ touching_max ty base ps ->
+  compile_range ty base text = Ok r' -> (validate_range r' v = true <-> in_parts r' v).
+Proof.
+  intros Htext Hbase Hnt Hc. destruct (range_compiled_sorted ty base ps text r' Htext Hbase Hnt Hc) as [Hs Hne].
+  exact (validate_range_spec r' v Hs Hne).
+Qed.
+
+(* ---------- chains of typedefs ---------- *)
+Fixpoint chain_wf (ty : rty) (base : parts) (ls : list (option (list rpart))) (rs : list (option bytes)) : Prop :=
+  match ls, rs with
+  | [], [] => True
+  | None :: ls', None :: rs' => chain_wf ty base ls' rs'
+  | Some ps :: ls', Some r :: rs' =>
+      range_text ty ps r /\ ~ touching_max ty base ps /\ chain_wf ty (resolve ty base ps) ls' rs'
+  | _, _ => False
+  end.
+
+(* the value sets of the restrictions along the chain, each resolved against the restriction before it *)
+Fixpoint chain_levels (ty : rty) (base : parts) (ls : list (option (list rpart))) : list parts :=
+  match ls with
+  | [] => []
+  | None :: ls' => chain_levels ty base ls'
+  | Some ps :: ls' => resolve ty base ps :: chain_levels ty (resolve ty base ps) ls'
+  end.
+
+Lemma validate_denote ps v : parts_sorted ps -> (validate_range ps v = true <-> denote ps v).
+Proof.
+  intro Hs. unfold denote. destruct ps as [|p ps].
+  - split; [left; reflexivity|reflexivity].
+  - rewrite (validate_range_spec (p :: ps) v Hs ltac:(discriminate)). split; [right; assumption|].
+    intros [H|H]; [discriminate|exact H].
+Qed.
+
+Theorem range_chain_intersection ty ls : forall base rs eff,
+  parts_sorted base -> chain_wf ty base ls rs -> compile_chain ty base rs = Ok eff ->
+  parts_sorted eff /\
+  forall v, denote eff v <-> denote base v /\ Forall (fun l => in_parts l v) (chain_levels ty base ls).
+Proof.
+  induction ls as [|[ps|] ls IH]; intros base rs eff Hbase Hwf Hc; destruct rs as [|[r|] rs]; cbn [chain_wf] in Hwf;
+    try contradiction.
+  - cbn [compile_chain] in Hc. inversion Hc; subst eff. split; [exact Hbase|]. intro v. cbn [chain_levels].
+    split; [intro H; split; [exact H|constructor]|tauto].
+  - destruct Hwf as (Htext & Hnt & Hwf). cbn [compile_chain] in Hc.
+    destruct (compile_range ty base r) as [r1|e] eqn:Hr; [|discriminate].
+    pose proof (proj1 (range_compile_iff ty base ps r r1 Htext Hbase Hnt) Hr) as (Hr1 & Hk & Hin & Hs & Hi).
+    subst r1. destruct (IH (resolve ty base ps) rs eff Hs Hwf Hc) as [Heff Hv]. split; [exact Heff|].
+    intro v. rewrite (Hv v). cbn [chain_levels]. rewrite Forall_cons_iff.
+    assert (Hne : resolve ty base ps <> []).
+    { pose proof (range_text_nonempty _ _ _ Htext). destruct ps; [congruence|discriminate]. }
+    assert (Hsub : in_parts (resolve ty base ps) v -> denote base v).
+    { intro H. destruct base as [|b0 base']; [left; reflexivity|]. right.
+      exact (parts_inside_subset _ _ (Hi ltac:(discriminate)) v H). }
+    unfold denote at 1. split.
+    + intros [[H|H] Hf]; [congruence|]. auto.
+    + intros (Hb & Hl & Hf). split; [right; exact Hl|exact Hf].
+  - cbn [compile_chain] in Hc. cbn [chain_levels]. exact (IH base rs eff Hbase Hwf Hc).
+Qed.
+
+(* ---------------------------------------------------------------------------------------------
+   7. where the code departs from RFC 7950 (every witness was run on the library as well)
+   --------------------------------------------------------------------------------------------- *)
+Definition bs (l : list N) : bytes := l.
+
+(* 1 50  (two numbers, no bar) derived from 1..10 is accepted, the second part escapes both the ascending check
+   and the check against the base: the derived type accepts 50 *)
+Lemma juxtaposed_widens :
+  exists r', compile_range (RInt U8) [(1, 10)%Z] (bs [49; 32; 53; 48]) = Ok r' /\
+             in_parts r' 50 /\ ~ in_parts [(1, 10)%Z] 50.
+Proof.
+  exists [(1, 1); (50, 50)]%Z. split; [vm_compute; reflexivity|]. split.
+  - exists 50%Z, 50%Z. split; [right; left; reflexivity|lia].
+  - intros (l & h & [Heq|[]] & Hv). inversion Heq; subst. lia.
+Qed.
+
+(* 5 1  is accepted with the parts in descending order; validate_range then rejects the listed value 1 *)
+Lemma juxtaposed_unsorted :
+  exists r', compile_range (RInt U8) [] (bs [53; 32; 49]) = Ok r' /\ ~ parts_sorted r' /\
+             in_parts r' 1 /\ validate_range r' 1 = false.
+Proof.
+  exists [(5, 5); (1, 1)]%Z. split; [vm_compute; reflexivity|]. split; [cbn [parts_sorted]; lia|]. split.
+  - exists 1%Z, 1%Z. split; [right; left; reflexivity|lia].
+  - reflexivity.
+Qed.
+
+(* 1||  derived from  1..3 | 5 : parts_done = 3 with one part, the check against the base reads parts[1] *)
+Lemma double_bar_overread :
+  compile_range (RInt U8) [(1, 3); (5, 5)]%Z (bs [49; 124; 124]) = Err E_OOB /\
+  compile_range (RInt U8) [] (bs [49; 124; 124]) = Ok [(1, 1)%Z].
+Proof. split; vm_compute; reflexivity. Qed.
+
+(* 1..9..3  is the part 1..3;  127 | max  gives two equal parts;  -  is the decimal64 value 0;
+   +5, 05 and (for uint8) -0 are numbers *)
+Lemma lenient_syntax :
+  compile_range (RInt U8) [] (bs [49; 46; 46; 57; 46; 46; 51]) = Ok [(1, 3)%Z] /\
+  compile_range (RInt I8) [] (bs [49; 50; 55; 32; 124; 32; 109; 97; 120]) = Ok [(127, 127); (127, 127)]%Z /\
+  compile_range (RDec 1) [] (bs [45]) = Ok [(0, 0)%Z] /\
+  compile_range (RInt I8) [] (bs [43; 53]) = Ok [(5, 5)%Z] /\
+  compile_range (RInt I8) [] (bs [48; 53]) = Ok [(5, 5)%Z] /\
+  compile_range (RInt U8) [] (bs [45; 48]) = Ok [(0, 0)%Z] /\
+  compile_range (RDec 1) [] (bs [45; 46; 53]) = Ok [(-5, -5)%Z].
+Proof. repeat split; vm_compute; reflexivity. Qed.
+
+(* legal by the RFC, rejected: 3..7 under 1..5 | 6..9 (a subset as a value set), 0..min for uint8, 1.50 for a
+   decimal64 with one fraction digit *)
+Lemma strict_rejections :
+  (exists e, compile_range (RInt U8) [(1, 5); (6, 9)]%Z (bs [51; 46; 46; 55]) = Err e) /\
+  subset [(3, 7)%Z] [(1, 5); (6, 9)]%Z /\
+  (exists e, compile_range (RInt U8) [] (bs [48; 46; 46; 109; 105; 110]) = Err e) /\
+  (exists e, compile_range (RDec 1) [] (bs [49; 46; 53; 48]) = Err e).
+Proof.
+  split; [eexists; vm_compute; reflexivity|]. split.
+  - intros v (l & h & [Heq|[]] & Hv). inversion Heq; subst.
+    destruct (Z_le_gt_dec v 5).
+    + exists 1%Z, 5%Z. split; [left; reflexivity|lia].
+    + exists 6%Z, 9%Z. split; [right; left; reflexivity|lia].
+  - split; eexists; vm_compute; reflexivity.
+Qed.
+
+(* an example of the main theorem: a three-part decimal64 restriction with keywords and white space *)
+Lemma example_text :
+  range_text (RDec 2) [(BMin, Some (BNum (-150))); (BNum 0, None); (BNum 314, Some BMax)]
+    (bs [32; 109; 105; 110; 46; 46; 45; 49; 46; 53; 32; 124; 48; 124; 32; 51; 46; 49; 52; 32; 46; 46; 32; 109; 97; 120; 10]).
+Proof.
+  apply (RangeText (RDec 2) [32] _ [109; 105; 110; 46; 46; 45; 49; 46; 53; 32; 124; 48; 124; 32; 51; 46; 49; 52; 32; 46; 46; 32; 109; 97; 120; 10]);
+    [reflexivity|].
+  apply (PsCons (RDec 2) (BMin, Some (BNum (-150))) [109; 105; 110; 46; 46; 45; 49; 46; 53; 32] [] _
+           [48; 124; 32; 51; 46; 49; 52; 32; 46; 46; 32; 109; 97; 120; 10]); [|reflexivity|].
+  - apply (PtTwo (RDec 2) BMin s_min [] [] (BNum (-150)) [45; 49; 46; 53] [32]); try reflexivity; [constructor|].
+    constructor. apply (NumDecF 2 [45] [49] [53]); try reflexivity; try discriminate; try (cbn [length]; lia); right; right; reflexivity.
+  - apply (PsCons (RDec 2) (BNum 0, None) [48] [32] _ [51; 46; 49; 52; 32; 46; 46; 32; 109; 97; 120; 10]); [|reflexivity|].
+    + apply (PtOne (RDec 2) (BNum 0) [48] []); [|reflexivity]. constructor.
+      apply (NumDecI 2 [] [48]); try reflexivity; try discriminate. left; reflexivity.
+    + apply PsOne.
+      apply (PtTwo (RDec 2) (BNum 314) [51; 46; 49; 52] [32] [32] BMax s_max [10]); try reflexivity; [|constructor].
+      constructor. apply (NumDecF 2 [] [51] [49; 52]); try reflexivity; try discriminate; try (cbn [length]; lia); left; reflexivity.
+Qed.
+
+Lemma example_compiles :
+  compile_range (RDec 2) [(-1000, 0); (100, 100000)]%Z
+    (bs [32; 109; 105; 110; 46; 46; 45; 49; 46; 53; 32; 124; 48; 124; 32; 51; 46; 49; 52; 32; 46; 46; 32; 109; 97; 120; 10])
+  = Ok [(-1000, -150); (0, 0); (314, 100000)]%Z.
+Proof. vm_compute. reflexivity. Qed.
+
+(* ---------------------------------------------------------------------------------------------
+   8. arbitrary texts: the fuel never runs out, and every stored boundary lies within the limits of the type
+   --------------------------------------------------------------------------------------------- *)
+Definition model_only (e : N) : Prop := e = E_FUEL.
+
+Lemma ly_parse_int_err s lo hi e : ly_parse_int s lo hi = Err e -> e <> E_FUEL.
+Proof.
+  unfold ly_parse_int. destruct s as [|c0 s']; [intro H; inversion H; discriminate|].
+  destruct (c0 =? 0); [intro H; inversion H; discriminate|].
+  destruct (strtoll10 (cstr (c0 :: s'))) as [| |i rest]; try (intro H; inversion H; discriminate).
+  destruct ((i <? lo)%Z || (hi <? i)%Z); [intro H; inversion H; discriminate|].
+  destruct (skip_space rest); intro H; inversion H; discriminate.
+Qed.
+
+Lemma ly_parse_uint_err s hi e : ly_parse_uint s hi = Err e -> e <> E_FUEL.
+Proof.
+  unfold ly_parse_uint. destruct s as [|c0 s']; [intro H; inversion H; discriminate|].
+  destruct (c0 =? 0); [intro H; inversion H; discriminate|].
+  destruct (strtoull10 (cstr (c0 :: s'))) as [| |u rest]; try (intro H; inversion H; discriminate).
+  destruct ((hi <? Z.of_N u)%Z || (negb (u =? 0) && (c0 =? 45))); [intro H; inversion H; discriminate|].
+  destruct (skip_space rest); intro H; inversion H; discriminate.
+Qed.
+
+Lemma ly_parse_int_range s lo hi v : ly_parse_int s lo hi = Ok v -> (lo <= v <= hi)%Z.
+Proof.
+  unfold ly_parse_int. destruct s as [|c0 s']; [discriminate|].
+  destruct (c0 =? 0); [discriminate|].
+  destruct (strtoll10 (cstr (c0 :: s'))) as [| |i rest]; try discriminate.
+  destruct ((i <? lo)%Z || (hi <? i)%Z) eqn:Hr; [discriminate|].
+  destruct (skip_space rest); intro H; inversion H; subst. lia.
+Qed.
+
+Lemma ly_parse_uint_range s hi v : ly_parse_uint s hi = Ok v -> (0 <= v <= hi)%Z.
+Proof.
+  unfold ly_parse_uint. destruct s as [|c0 s']; [discriminate|].
+  destruct (c0 =? 0); [discriminate|].
+  destruct (strtoull10 (cstr (c0 :: s'))) as [| |u rest]; try discriminate.
+  destruct ((hi <? Z.of_N u)%Z || (negb (u =? 0) && (c0 =? 45))) eqn:Hr; [discriminate|].
+  destruct (skip_space rest); intro H; inversion H; subst. lia.
+Qed.
+
+Lemma parse_bound_err ty vc e : parse_bound ty vc = Err e -> e <> E_FUEL.
+Proof.
+  unfold parse_bound. destruct ty as [t|fd|]; [destruct (ity_signed t)| |];
+    first [apply ly_parse_int_err|apply ly_parse_uint_err].
+Qed.
+
+Lemma parse_bound_range ty vc v : parse_bound ty vc = Ok v -> (rty_min ty <= v <= rty_max ty)%Z.
+Proof.
+  unfold parse_bound. destruct ty as [t|fd|]; cbn [rty_min rty_max].
+  - destruct (ity_signed t) eqn:Hs; [apply ly_parse_int_range|].
+    intro H. apply ly_parse_uint_range in H. destruct (ity_bounds_unsigned t Hs) as [-> _]. exact H.
+  - apply ly_parse_int_range.
+  - apply ly_parse_uint_range.
+Qed.
+
+Lemma bound_num_err ty mx first prev e0 e : bound_num ty mx first prev e0 = Err e -> e <> E_FUEL.
+Proof.
+  unfold bound_num. destruct (value_syntax ty e0) as [[len vc]|e1] eqn:Hv.
+  - destruct (parse_bound ty vc) as [v|e2] eqn:Hp.
+    + destruct (first || asc_ok mx v prev); intro H; inversion H; discriminate.
+    + intro H; inversion H; subst. exact (parse_bound_err _ _ _ Hp).
+  - intro H; inversion H; subst. unfold value_syntax in Hv. cbv zeta in Hv.
+    destruct (negb (is_digit (rd e0 0)) && negb (rd e0 0 =? 45) && negb (rd e0 0 =? 43)); [inversion Hv; discriminate|].
+    destruct ty as [t|fd|]; try discriminate.
+    unfold dec_valcopy in Hv.
+    repeat match type of Hv with context [if ?c then _ else _] => destruct c end; inversion Hv; discriminate.
+Qed.
+
+Lemma bound_num_range ty mx first prev e0 v len :
+  bound_num ty mx first prev e0 = Ok (v, len) -> (rty_min ty <= v <= rty_max ty)%Z.
+Proof.
+  unfold bound_num. destruct (value_syntax ty e0) as [[l vc]|]; [|discriminate].
+  destruct (parse_bound ty vc) as [w|] eqn:Hp; [|discriminate].
+  destruct (first || asc_ok mx w prev); [|discriminate]. intro H; inversion H; subst.
+  exact (parse_bound_range _ _ _ Hp).
+Qed.
+
+Lemma bound_kw_err ty base mx first prev e : bound_kw ty base mx first prev = Err e -> e <> E_FUEL.
+Proof. unfold bound_kw. destruct (first || asc_ok mx (kw_value ty base mx) prev); intro H; inversion H; discriminate. Qed.
+
+Lemma loop_no_fuel f : forall ty base rp pd re e,
+  (length e < f)%nat -> loop f ty base rp pd re e <> Err E_FUEL.
+Proof.
+  induction f as [|f IH]; intros ty base rp pd re e Hf; [lia|].
+  cbn [loop]. destruct e as [|c rest].
+  - destruct re; [discriminate|]. destruct (is_nil rp || (pd =? length rp)%nat); discriminate.
+  - cbn [length] in Hf.
+    destruct (is_space c); [apply IH; lia|].
+    destruct (starts_with s_min (c :: rest)).
+    { destruct rp; [|discriminate]. destruct (bound_kw ty base false true 0) eqn:Hk.
+      - apply IH. rewrite skipn_length. cbn [length]. lia.
+      - intro H; inversion H; subst. exact (bound_kw_err _ _ _ _ _ _ Hk eq_refl). }
+    destruct (c =? 124).
+    { destruct (is_nil rp || re); [discriminate|]. apply IH; lia. }
+    destruct (starts_with s_dots (c :: rest)).
+    { destruct (is_nil rp || (length rp =? pd)%nat); [discriminate|].
+      pose proof (skip_space_length (skipn 2 (c :: rest))) as Hl. rewrite skipn_length in Hl. cbn [length] in Hl.
+      apply IH; lia. }
+    destruct (is_digit c || (c =? 45) || (c =? 43)).
+    { destruct re.
+      - destruct rp as [|[lo hi0] tl]; [discriminate|].
+        destruct (bound_num ty true false lo (c :: rest)) as [[v len]|e1] eqn:Hb.
+        + pose proof (bound_num_len_pos _ _ _ _ _ _ _ Hb). apply IH. rewrite skipn_length. cbn [length]. lia.
+        + intro H; inversion H; subst. exact (bound_num_err _ _ _ _ _ _ Hb eq_refl).
+      - destruct (bound_num ty false (pd =? 0)%nat (prev_max pd rp) (c :: rest)) as [[v len]|e1] eqn:Hb.
+        + pose proof (bound_num_len_pos _ _ _ _ _ _ _ Hb). apply IH. rewrite skipn_length. cbn [length]. lia.
+        + intro H; inversion H; subst. exact (bound_num_err _ _ _ _ _ _ Hb eq_refl). }
+    destruct (starts_with s_max (c :: rest)); [|discriminate].
+    destruct (skip_space (skipn 3 (c :: rest))); [|discriminate].
+    destruct re.
+    + destruct rp as [|[lo hi0] tl]; [discriminate|].
+      destruct (bound_kw ty base true false lo) eqn:Hk; [apply IH; cbn [length]; lia|].
+      intro H; inversion H; subst. exact (bound_kw_err _ _ _ _ _ _ Hk eq_refl).
+    + destruct (bound_kw ty base true (pd =? 0)%nat (prev_max pd rp)) eqn:Hk; [apply IH; cbn [length]; lia|].
+      intro H; inversion H; subst. exact (bound_kw_err _ _ _ _ _ _ Hk eq_refl).
+Qed.
+
+Theorem compile_range_never_fuel ty base text : compile_range ty base text <> Err E_FUEL.
+Proof.
+  unfold compile_range.
+  pose proof (loop_no_fuel (S (length text)) ty base [] 0 false text ltac:(lia)) as Hl.
+  destruct (loop (S (length text)) ty base [] 0 false text) as [[ps pd]|e]; [|congruence].
+  destruct base; [discriminate|].
+  destruct (check_base_rem (firstn pd ps) (p :: base)); [|discriminate].
+  destruct (pd <=? length ps)%nat; [discriminate|]. destruct (is_nil p0); discriminate.
+Qed.
+
+(* every stored boundary is within the limits of the built-in type and each part has lo <= hi, for ANY text *)
+Definition part_ok (ty : rty) (p : Z * Z) : Prop :=
+  (rty_min ty <= fst p)%Z /\ (fst p <= snd p)%Z /\ (snd p <= rty_max ty)%Z.
+
+Lemma kw_value_ok ty base mx :
+  Forall (part_ok ty) base -> (rty_min ty <= rty_max ty)%Z ->
+  (rty_min ty <= kw_value ty base mx <= rty_max ty)%Z.
+Proof.
+  intros Hb Hty. unfold kw_value. destruct base as [|p base]; [destruct mx; lia|].
+  destruct mx.
+  - assert (Hin : In (last (p :: base) p) (p :: base)).
+    { clear. generalize p at 1 3. induction base as [|q base IH]; intro d; cbn [last]; [left; reflexivity|].
+      destruct base as [|q2 base']; [right; left; reflexivity|]. right. exact (IH q). }
+    rewrite Forall_forall in Hb. destruct (Hb _ Hin) as (H1 & H2 & H3). lia.
+  - destruct (Forall_inv Hb) as (H1 & H2 & H3). lia.
+Qed.
+
+Lemma rty_min_le_max ty : (rty_min ty <= rty_max ty)%Z.
+Proof. destruct ty as [t|fd|]; cbn; [destruct t; cbn; lia|unfold I64MIN_Z, I64MAX_Z; lia|lia]. Qed.
+
+Lemma loop_parts_ok f : forall ty base rp pd re e r pd',
+  Forall (part_ok ty) base -> Forall (part_ok ty) rp ->
+  loop f ty base rp pd re e = Ok (r, pd') -> Forall (part_ok ty) r.
+Proof.
+  induction f as [|f IH]; intros ty base rp pd re e r pd' Hbase Hrp H; [discriminate|].
+  pose proof (rty_min_le_max ty) as Hty.
+  assert (Hkw : forall mx, (rty_min ty <= kw_value ty base mx <= rty_max ty)%Z) by (intro; apply kw_value_ok; assumption).
+  cbn [loop] in H. destruct e as [|c rest].
+  - destruct re; [discriminate|]. destruct (is_nil rp || (pd =? length rp)%nat); [discriminate|].
+    inversion H; subst. apply Forall_rev. exact Hrp.
+  - destruct (is_space c); [exact (IH _ _ _ _ _ _ _ _ Hbase Hrp H)|].
+    destruct (starts_with s_min (c :: rest)).
+    { destruct rp; [|discriminate]. unfold bound_kw in H. cbn [orb] in H.
+      refine (IH _ _ _ _ _ _ _ _ Hbase _ H). constructor; [|constructor].
+      specialize (Hkw false). unfold part_ok. cbn [fst snd]. lia. }
+    destruct (c =? 124).
+    { destruct (is_nil rp || re); [discriminate|]. exact (IH _ _ _ _ _ _ _ _ Hbase Hrp H). }
+    destruct (starts_with s_dots (c :: rest)).
+    { destruct (is_nil rp || (length rp =? pd)%nat); [discriminate|]. exact (IH _ _ _ _ _ _ _ _ Hbase Hrp H). }
+    destruct (is_digit c || (c =? 45) || (c =? 43)).
+    { destruct re.
+      - destruct rp as [|[lo hi0] tl]; [discriminate|].
+        destruct (bound_num ty true false lo (c :: rest)) as [[v len]|e1] eqn:Hb; [|discriminate].
+        pose proof (bound_num_range _ _ _ _ _ _ _ Hb) as Hv.
+        refine (IH _ _ _ _ _ _ _ _ Hbase _ H). constructor; [|exact (Forall_inv_tail Hrp)].
+        destruct (Forall_inv Hrp) as (H1 & H2 & H3). cbn [fst snd] in *. unfold part_ok. cbn [fst snd].
+        unfold bound_num in Hb. destruct (value_syntax ty (c :: rest)) as [[l0 vc]|]; [|discriminate].
+        destruct (parse_bound ty vc) as [w|]; [|discriminate]. cbn [orb] in Hb. unfold asc_ok in Hb.
+        destruct (lo <=? w)%Z eqn:Hle; [|discriminate]. inversion Hb; subst. lia.
+      - destruct (bound_num ty false (pd =? 0)%nat (prev_max pd rp) (c :: rest)) as [[v len]|e1] eqn:Hb; [|discriminate].
+        pose proof (bound_num_range _ _ _ _ _ _ _ Hb) as Hv.
+        refine (IH _ _ _ _ _ _ _ _ Hbase _ H). constructor; [|exact Hrp]. unfold part_ok. cbn [fst snd]. lia. }
+    destruct (starts_with s_max (c :: rest)); [|discriminate].
+    destruct (skip_space (skipn 3 (c :: rest))); [|discriminate].
+    destruct re.
+    + destruct rp as [|[lo hi0] tl]; [discriminate|]. unfold bound_kw in H. cbn [orb] in H. unfold asc_ok in H.
+      destruct (lo <=? kw_value ty base true)%Z eqn:Hle; [|discriminate].
+      refine (IH _ _ _ _ _ _ _ _ Hbase _ H). constructor; [|exact (Forall_inv_tail Hrp)].
+      destruct (Forall_inv Hrp) as (H1 & H2 & H3). cbn [fst snd] in *. specialize (Hkw true). unfold part_ok. cbn [fst snd]. lia.
+    + unfold bound_kw in H. destruct ((pd =? 0)%nat || asc_ok true (kw_value ty base true) (prev_max pd rp)); [|discriminate].
+      refine (IH _ _ _ _ _ _ _ _ Hbase _ H). constructor; [|exact Hrp]. specialize (Hkw true). unfold part_ok. cbn [fst snd]. lia.
+Qed.
+
+Theorem compile_range_parts_ok ty base text r :
+  Forall (part_ok ty) base -> compile_range ty base text = Ok r -> Forall (part_ok ty) r /\ r <> [].
+Proof.
+  intros Hbase H. unfold compile_range in H.
+  destruct (loop (S (length text)) ty base [] 0 false text) as [[ps pd]|e] eqn:Hl; [|discriminate].
+  assert (Hps : Forall (part_ok ty) ps) by exact (loop_parts_ok _ _ _ _ _ _ _ _ _ Hbase (Forall_nil _) Hl).
+  assert (Hne : ps <> []).
+  { clear H Hps. revert Hl. generalize (S (length text)) as f. intro f. generalize (@nil (Z * Z)) at 1 as rp0.
+    intros rp0 Hl. intro Hnil. subst ps.
+    (* the loop only answers Ok at the end of the text with a non-empty array *)
+    revert rp0 Hl. generalize 0%nat as pd0. generalize false as re0. generalize text as e0.
+    induction f as [|f IH]; intros e0 re0 pd0 rp0 Hl; [discriminate|].
+    cbn [loop] in Hl. destruct e0 as [|c rest].
+    - destruct re0; [discriminate|]. destruct rp0 as [|p rp0']; [discriminate|].
+      cbn [is_nil orb] in Hl. destruct (pd0 =? length (p :: rp0'))%nat; [discriminate|].
+      inversion Hl as [[Hrev Hpd]]. apply (f_equal (@length _)) in Hrev. cbn [rev] in Hrev. rewrite app_length in Hrev. cbn [length] in Hrev. lia.
+    - repeat match type of Hl with
+             | context [if ?c then _ else _] => destruct c
+             | context [match ?x with _ => _ end] => destruct x
+             end; try discriminate; try exact (IH _ _ _ _ Hl). }
+  destruct base as [|b0 base']; [inversion H; subst; auto|].
+  destruct (check_base_rem (firstn pd ps) (b0 :: base')); [|discriminate].
+  destruct (pd <=? length ps)%nat; [inversion H; subst; auto|]. destruct (is_nil p); discriminate.
+Qed.
